@@ -172,6 +172,10 @@ def _index_drawn_from_len_range(F, b, defs, get_call, _depth=0):
                     def upvar_index(local, depth=0):
                         """which captured variable (index into the closure's environment) a local of the closure body is read from"""
                         for d in defs.whole_defs(local):
+                            if d[2] == "call" and depth <= 8 and hir.last(mir.callee_def(d[3]) or "") in ("deref", "deref_mut") and d[3]["args"] and mir.is_place_op(d[3]["args"][0]):
+                                u = upvar_index(d[3]["args"][0][1][0], depth + 1)     # the captured variable is a lock guard
+                                if u is not None:
+                                    return u
                             if d[2] != "assign" or depth > 8:
                                 continue
                             rv = d[3]["rv"]
@@ -199,6 +203,46 @@ def _index_drawn_from_len_range(F, b, defs, get_call, _depth=0):
                                 lr = len_receivers(parent, pdefs, recv[1][0])
                                 if lr and all(k == precv for k in lr):
                                     return True
+                                # the range is drawn from the length of ANOTHER list, and the adaptor only runs behind the test that
+                                # both lengths are equal (`if self.len != other.len { return false }`)
+                                if lr and len(set(lr)) == 1 and _len_equal_gate(parent, pdefs, bi, lr[0], precv):
+                                    return True
+    return False
+
+
+def _len_equal_gate(b, defs, target_bb, kx, ky):
+    """target_bb is only reached over the `equal` edge of a comparison of the lengths of the lists with origin keys kx and ky"""
+    def len_of(o):
+        if not mir.is_place_op(o):
+            return None
+        k = _norm_key(mir.origin_key(b, defs, o[1]))
+        if k.endswith(".len"):
+            return k[:-4]
+        for x in mir.back_calls(b, defs, o[1][0]):
+            t = b.blocks[x]["term"]
+            if hir.last(mir.callee_def(t) or "") == "len" and t["args"] and mir.is_place_op(t["args"][0]):
+                return _norm_key(mir.origin_key(b, defs, t["args"][0][1]))
+        return None
+    dom = mir.dominators(b)
+    for di in dom[target_bb]:
+        t = b.blocks[di]["term"]
+        if t["k"] != "switch" or not mir.is_place_op(t["o"]):
+            continue
+        for d in defs.whole_defs(t["o"][1][0]):
+            if d[2] != "assign" or d[3]["rv"]["k"] != "bin" or d[3]["rv"]["op"] not in ("Eq", "Ne"):
+                continue
+            if {len_of(d[3]["rv"]["a"]), len_of(d[3]["rv"]["b"])} != {kx, ky}:
+                continue
+            # value 0 of `a != b` / value 1 (otherwise) of `a == b` is the equal edge
+            tg = dict(t["targets"])
+            if d[3]["rv"]["op"] == "Ne":
+                eq_edge, ne_edge = tg.get(0), t["otherwise"]
+            else:
+                eq_edge, ne_edge = t["otherwise"], tg.get(0)
+            if eq_edge is None or ne_edge is None:
+                continue
+            if target_bb in mir.reachable_from(b, eq_edge) | {eq_edge} and target_bb not in mir.reachable_from(b, ne_edge) | {ne_edge}:
+                return True
     return False
 
 
